@@ -14,8 +14,8 @@ pub type Out = Result<u8, u8>;
 pub type Val = i64;
 pub type Tid = usize;
 
-/// Resource key: (family, id). Families: 0 = RA, 1 = RB (simulated), 2 = MK1, 3 = MK2 (pie's map resource),
-/// 4 = PathBuf (pie's file resource).
+/// Resource key: (family, id). Families: 0 = RA, 1 = RB (simulated), 2 = MK<2>, 3 = MK<3> (pie's map resource),
+/// 4 = PathBuf (pie's file resource, file `f<id>` in a private directory).
 #[derive(Clone, Copy, Debug, PartialEq, Eq, PartialOrd, Ord, Hash, Serialize, Deserialize)]
 pub struct ResKey { pub fam: u8, pub id: u32 }
 
@@ -292,8 +292,12 @@ impl Debug for RChk {
   fn fmt(&self, f: &mut fmt::Formatter<'_>) -> fmt::Result { write!(f, "RChk({:?},{})", self.kind, self.tag) }
 }
 
+/// The stamp of pie's own checker when the instrumented checker delegates to it (map and file resources).
+#[derive(Clone, Copy, PartialEq, Eq, Hash, Debug)]
+pub enum RealStamp { None, Map(Option<Val>), Exists(bool), Hash(Option<[u8; 32]>), Modified(Option<std::time::SystemTime>) }
+
 #[derive(Clone, Copy, PartialEq, Eq, Hash)]
-pub struct RStamp { pub serial: u64, pub proj: Option<Val> }
+pub struct RStamp { pub serial: u64, pub proj: Option<Val>, pub real: RealStamp }
 impl Debug for RStamp {
   fn fmt(&self, f: &mut fmt::Formatter<'_>) -> fmt::Result { write!(f, "RStamp#{}({:?})", self.serial, self.proj) }
 }
@@ -313,7 +317,7 @@ impl<const F: u8> ResourceChecker<R<F>> for RChk {
     let serial = new_serial();
     let proj = self.kind.stamp_of(cell);
     log(Ev::RStamp { serial, owner: owner_for(Target::Res(key)), route: Route::Path, res: key, chk: self.kind, seen: cell, proj, reader: None });
-    Ok(RStamp { serial, proj })
+    Ok(RStamp { serial, proj, real: RealStamp::None })
   }
 
   fn stamp_reader(&self, resource: &R<F>, reader: &mut SimReader) -> Result<RStamp, SimErr> {
@@ -326,7 +330,7 @@ impl<const F: u8> ResourceChecker<R<F>> for RChk {
     reader.cursor = 1;
     reader.cursor = 0;
     log(Ev::RStamp { serial, owner: owner_for(Target::Res(key)), route: Route::Reader, res: key, chk: self.kind, seen: reader.cell, proj, reader: Some((reader.serial, fresh)) });
-    Ok(RStamp { serial, proj })
+    Ok(RStamp { serial, proj, real: RealStamp::None })
   }
 
   fn stamp_writer(&self, resource: &R<F>, writer: SimWriter<'_>) -> Result<RStamp, SimErr> {
@@ -336,7 +340,7 @@ impl<const F: u8> ResourceChecker<R<F>> for RChk {
     let serial = new_serial();
     let proj = self.kind.stamp_of(cell);
     log(Ev::RStamp { serial, owner: owner_for(Target::Res(key)), route: Route::Writer, res: key, chk: self.kind, seen: cell, proj, reader: None });
-    Ok(RStamp { serial, proj })
+    Ok(RStamp { serial, proj, real: RealStamp::None })
   }
 
   fn check<RS: ResourceState<R<F>>>(&self, resource: &R<F>, state: &mut RS, stamp: &RStamp) -> Result<Option<impl Debug>, SimErr> {
@@ -415,4 +419,179 @@ impl OutputChecker<Out> for OChk {
     log(Ev::OCheck { serial: stamp.serial, chk: self.kind, out: *output, incons });
     if incons { Some(*output) } else { None }
   }
+}
+
+// ---------------------------------------------------------------------------------------------------------------------
+// pie's map resource as a backend: families MK<2>, MK<3>. The instrumented checker delegates to `MapEqualsChecker`
+// for the exact kind and applies its own projection to the value otherwise.
+
+#[derive(Clone, Copy, PartialEq, Eq, Hash)]
+pub struct MK<const F: u8>(pub u32);
+impl<const F: u8> Debug for MK<F> {
+  fn fmt(&self, f: &mut fmt::Formatter<'_>) -> fmt::Result { write!(f, "R({})", self.0) }
+}
+impl<const F: u8> pie::resource::map::MapKey for MK<F> { type Value = Val; }
+
+fn injected_check_error(key: ResKey, serial: u64) -> Option<u32> {
+  with_sim(|s| {
+    s.check_calls += 1;
+    if s.faults.check_err_calls.contains(&s.check_calls) || s.faults.check_err_res.contains(&key) {
+      let code = 9000 + s.errors_injected.len() as u32;
+      s.errors_injected.push((serial, code));
+      Some(code)
+    } else { None }
+  })
+}
+
+impl<const F: u8> ResourceChecker<MK<F>> for RChk {
+  type Stamp = RStamp;
+  type Error = SimErr;
+
+  fn stamp<RS: ResourceState<MK<F>>>(&self, key: &MK<F>, state: &mut RS) -> Result<RStamp, SimErr> {
+    tick();
+    let rk = ResKey { fam: F, id: key.0 };
+    let real = pie::resource::map::MapEqualsChecker.stamp(key, state).unwrap();
+    let cell = Cell { val: real, ver: 0 };
+    let serial = new_serial();
+    let proj = self.kind.stamp_of(cell);
+    log(Ev::RStamp { serial, owner: owner_for(Target::Res(rk)), route: Route::Path, res: rk, chk: self.kind, seen: cell, proj, reader: None });
+    Ok(RStamp { serial, proj, real: RealStamp::Map(real) })
+  }
+
+  fn stamp_reader(&self, key: &MK<F>, reader: &mut Option<&Val>) -> Result<RStamp, SimErr> {
+    tick();
+    let rk = ResKey { fam: F, id: key.0 };
+    let real = pie::resource::map::MapEqualsChecker.stamp_reader(key, reader).unwrap();
+    let cell = Cell { val: real, ver: 0 };
+    let serial = new_serial();
+    let proj = self.kind.stamp_of(cell);
+    log(Ev::RStamp { serial, owner: owner_for(Target::Res(rk)), route: Route::Reader, res: rk, chk: self.kind, seen: cell, proj, reader: None });
+    Ok(RStamp { serial, proj, real: RealStamp::Map(real) })
+  }
+
+  fn stamp_writer(&self, key: &MK<F>, writer: pie::resource::map::MapWriter<'_, MK<F>>) -> Result<RStamp, SimErr> {
+    tick();
+    let rk = ResKey { fam: F, id: key.0 };
+    let real = pie::resource::map::MapEqualsChecker.stamp_writer(key, writer).unwrap();
+    let cell = Cell { val: real, ver: 0 };
+    let serial = new_serial();
+    let proj = self.kind.stamp_of(cell);
+    log(Ev::RStamp { serial, owner: owner_for(Target::Res(rk)), route: Route::Writer, res: rk, chk: self.kind, seen: cell, proj, reader: None });
+    Ok(RStamp { serial, proj, real: RealStamp::Map(real) })
+  }
+
+  fn check<RS: ResourceState<MK<F>>>(&self, key: &MK<F>, state: &mut RS, stamp: &RStamp) -> Result<Option<impl Debug>, SimErr> {
+    tick();
+    let rk = ResKey { fam: F, id: key.0 };
+    let now_val = key.read(state).unwrap().copied();
+    let cell = Cell { val: now_val, ver: 0 };
+    if let Some(code) = injected_check_error(rk, stamp.serial) {
+      log(Ev::RCheck { serial: stamp.serial, res: rk, chk: self.kind, now: cell, verdict: Verdict::Error(code) });
+      return Err(SimErr(code));
+    }
+    let incons = match (self.kind, stamp.real) {
+      (RK::Exact, RealStamp::Map(s)) => pie::resource::map::MapEqualsChecker.check(key, state, &s).unwrap().is_some(),
+      _ => self.kind.stamp_of(cell) != stamp.proj,
+    };
+    log(Ev::RCheck { serial: stamp.serial, res: rk, chk: self.kind, now: cell, verdict: if incons { Verdict::Inconsistent } else { Verdict::Consistent } });
+    Ok(if incons { Some(now_val) } else { None })
+  }
+
+  fn wrap_error(&self, error: std::convert::Infallible) -> SimErr { match error {} }
+}
+
+// ---------------------------------------------------------------------------------------------------------------------
+// pie's file resource as a backend: family 4 = PathBuf under a private directory. Exact -> HashChecker,
+// Exists -> ExistsChecker, Version -> ModifiedChecker; other kinds project the parsed content.
+
+pub fn file_path(id: u32) -> std::path::PathBuf {
+  with_sim(|s| s.file_dir.clone().expect("no private directory for file resources")).join(format!("f{id}"))
+}
+
+pub fn file_id(path: &std::path::Path) -> Option<u32> { path.file_name()?.to_str()?.strip_prefix('f')?.parse().ok() }
+
+pub fn file_val(path: &std::path::Path) -> Option<Val> {
+  match std::fs::metadata(path) {
+    Err(_) => None,
+    Ok(m) if m.is_dir() => Some(-1),
+    Ok(_) => Some(std::fs::read_to_string(path).ok().and_then(|s| s.trim().parse().ok()).unwrap_or(-2)),
+  }
+}
+
+fn fold_hash(h: Option<[u8; 32]>) -> Option<Val> { h.map(|h| i64::from_le_bytes([h[0], h[1], h[2], h[3], h[4], h[5], h[6], 0])) }
+fn fold_time(t: Option<std::time::SystemTime>) -> Option<Val> { t.map(|t| t.duration_since(std::time::UNIX_EPOCH).map(|d| d.as_nanos() as i64).unwrap_or(-1)) }
+
+impl RChk {
+  fn file_stamp(&self, path: &std::path::PathBuf, real: RealStamp, route: Route) -> RStamp {
+    let id = file_id(path).unwrap_or(u32::MAX);
+    let rk = ResKey { fam: 4, id };
+    let cell = Cell { val: file_val(path), ver: 0 };
+    let proj = match real { RealStamp::Exists(b) => b.then_some(1), RealStamp::Hash(h) => fold_hash(h), RealStamp::Modified(t) => fold_time(t), _ => self.kind.stamp_of(cell) };
+    let serial = new_serial();
+    log(Ev::RStamp { serial, owner: owner_for(Target::Res(rk)), route, res: rk, chk: self.kind, seen: cell, proj, reader: None });
+    RStamp { serial, proj, real }
+  }
+}
+
+impl ResourceChecker<std::path::PathBuf> for RChk {
+  type Stamp = RStamp;
+  type Error = SimErr;
+
+  fn stamp<RS: ResourceState<std::path::PathBuf>>(&self, path: &std::path::PathBuf, state: &mut RS) -> Result<RStamp, SimErr> {
+    use pie::resource::file::{hash_checker::HashChecker, ExistsChecker, ModifiedChecker};
+    tick();
+    let real = match self.kind {
+      RK::Exists => RealStamp::Exists(ExistsChecker.stamp(path, state).map_err(|_| SimErr(6001))?),
+      RK::Exact => RealStamp::Hash(HashChecker.stamp(path, state).map_err(|_| SimErr(6002))?),
+      RK::Version => RealStamp::Modified(ModifiedChecker.stamp(path, state).map_err(|_| SimErr(6003))?),
+      _ => RealStamp::None,
+    };
+    Ok(self.file_stamp(path, real, Route::Path))
+  }
+
+  fn stamp_reader(&self, path: &std::path::PathBuf, reader: &mut pie::resource::file::OpenRead) -> Result<RStamp, SimErr> {
+    use pie::resource::file::{hash_checker::HashChecker, ExistsChecker, ModifiedChecker};
+    tick();
+    let real = match self.kind {
+      RK::Exists => RealStamp::Exists(ExistsChecker.stamp_reader(path, reader).map_err(|_| SimErr(6011))?),
+      RK::Exact => RealStamp::Hash(HashChecker.stamp_reader(path, reader).map_err(|_| SimErr(6012))?),
+      RK::Version => RealStamp::Modified(ModifiedChecker.stamp_reader(path, reader).map_err(|_| SimErr(6013))?),
+      _ => RealStamp::None,
+    };
+    Ok(self.file_stamp(path, real, Route::Reader))
+  }
+
+  fn stamp_writer(&self, path: &std::path::PathBuf, writer: std::fs::File) -> Result<RStamp, SimErr> {
+    use pie::resource::file::{hash_checker::HashChecker, ExistsChecker, ModifiedChecker};
+    tick();
+    let real = match self.kind {
+      RK::Exists => RealStamp::Exists(ExistsChecker.stamp_writer(path, writer).map_err(|_| SimErr(6021))?),
+      RK::Exact => RealStamp::Hash(HashChecker.stamp_writer(path, writer).map_err(|_| SimErr(6022))?),
+      RK::Version => RealStamp::Modified(ModifiedChecker.stamp_writer(path, writer).map_err(|_| SimErr(6023))?),
+      _ => { drop(writer); RealStamp::None }
+    };
+    Ok(self.file_stamp(path, real, Route::Writer))
+  }
+
+  fn check<RS: ResourceState<std::path::PathBuf>>(&self, path: &std::path::PathBuf, state: &mut RS, stamp: &RStamp) -> Result<Option<impl Debug>, SimErr> {
+    use pie::resource::file::{hash_checker::HashChecker, ExistsChecker, ModifiedChecker};
+    tick();
+    let id = file_id(path).unwrap_or(u32::MAX);
+    let rk = ResKey { fam: 4, id };
+    let cell = Cell { val: file_val(path), ver: 0 };
+    if let Some(code) = injected_check_error(rk, stamp.serial) {
+      log(Ev::RCheck { serial: stamp.serial, res: rk, chk: self.kind, now: cell, verdict: Verdict::Error(code) });
+      return Err(SimErr(code));
+    }
+    let incons = match (self.kind, stamp.real) {
+      (RK::Exists, RealStamp::Exists(s)) => ExistsChecker.check(path, state, &s).map_err(|_| SimErr(6031))?.is_some(),
+      (RK::Exact, RealStamp::Hash(s)) => HashChecker.check(path, state, &s).map_err(|_| SimErr(6032))?.is_some(),
+      (RK::Version, RealStamp::Modified(s)) => ModifiedChecker.check(path, state, &s).map_err(|_| SimErr(6033))?.is_some(),
+      _ => self.kind.stamp_of(cell) != stamp.proj,
+    };
+    log(Ev::RCheck { serial: stamp.serial, res: rk, chk: self.kind, now: cell, verdict: if incons { Verdict::Inconsistent } else { Verdict::Consistent } });
+    Ok(if incons { Some(cell.val) } else { None })
+  }
+
+  fn wrap_error(&self, error: pie::resource::file::FsError) -> SimErr { let _ = error; SimErr(6000) }
 }
